@@ -59,11 +59,13 @@ def _ctx():
         C.append((name, accept, rtype, build, fillers))
 
     same = lambda t: t  # noqa  (value passes through unchanged)
-    tag = lambda t: "h" if t == "h" else "j"  # noqa  (value gets wrapped in a tagged tuple)
+    tag = lambda t: "h" if t == "h" else (t if t in ("i", "ii") else "j")  # noqa  (value wrapped in a tagged tuple)
     H = lambda t: "h"  # noqa
     J = lambda t: "j"  # noqa
-    ANY = ("h", "j", "l", "i")
-    I = lambda t: "i"  # noqa  (lazy iterable: Iter / Map results)
+    ANY = ("h", "j", "l", "i", "ii")
+    EAGER = ("h", "j", "l")  # what may be stored in a cache: no single-use iterators
+    I = lambda t: "ii" if t in ("i", "ii") else "i"  # noqa  (lazy iterable: Iter / Map results)
+    Jl = lambda t: t if t in ("i", "ii") else "j"  # noqa  (container holding the value)
 
     add("apply", ANY, tag, lambda h, i: ("apply", h, ("fn", f"f{i}")))
     add("apply_step", ANY, tag, lambda h, i: ("apply", ("val", 0), ("step", f"g{i}", {"y": h})))
@@ -142,11 +144,11 @@ def _ctx():
         lambda h, i: ("coalesce", [("opt", _q(i, "f")), h]),
         lambda i: [(_q(i, "f"), [ABSENT, "first"])],
     )
-    add("list", ANY, J, lambda h, i: ("list", [("val", 0), h]))
+    add("list", ANY, Jl, lambda h, i: ("list", [("val", 0), h]))
     add("tuple", ANY, tag, lambda h, i: ("tuple", [("val", 0), h]))
     add("set", ("h",), J, lambda h, i: ("set", [("val", 0), h]))
-    add("dict", ANY, J, lambda h, i: ("dict", [("k", h)]))
-    add("iter", ANY, J, lambda h, i: ("apply", ("iter", [h, ("val", 0)]), ("fn", "f_list")))
+    add("dict", ANY, Jl, lambda h, i: ("dict", [("k", h)]))
+    add("iter", ANY, Jl, lambda h, i: ("apply", ("iter", [h, ("val", 0)]), ("fn", "f_list")))
     add("map_ev", ANY, I, lambda h, i: ("map", h, [(_q(i, "m"), ("val", [1, 2]))]))
     add("mapvalues_ev", ANY, I, lambda h, i: ("mapvalues", h, [("A", ("val", [1, 3]))]))
     add(
@@ -163,9 +165,9 @@ def _ctx():
     add("wdo_A", ANY, same, lambda h, i: ("withopt", h, {"A": 9}, False))
     add("wdo_B", ANY, same, lambda h, i: ("withopt", h, {"B": 9}, False))
     add("wdo_SY", ANY, same, lambda h, i: ("withopt", h, {"S": {"Y": 9}}, False))
-    add("cached", ANY, same, lambda h, i: ("cached", h, f"c{i}"))
-    add("ds_param", ANY, tag, lambda h, i: ("ds", f"dp{i}", {"params": [h]}))
-    add("ds_nocache", ANY, tag, lambda h, i: ("ds", f"dn{i}", {"params": [h], "cache": "none"}))
+    add("cached", EAGER, same, lambda h, i: ("cached", h, f"c{i}"))
+    add("ds_param", EAGER, tag, lambda h, i: ("ds", f"dp{i}", {"params": [h]}))
+    add("ds_nocache", EAGER, tag, lambda h, i: ("ds", f"dn{i}", {"params": [h], "cache": "none"}))
     add(
         "ds_dispatch",
         ("h",),
@@ -180,7 +182,7 @@ def _ctx():
     )
     add(
         "ds_overload",
-        ANY,
+        EAGER,
         same,
         lambda h, i: (
             "ds",
@@ -191,17 +193,17 @@ def _ctx():
     )
     add(
         "ds_callback",
-        ANY,
+        EAGER,
         tag,
         lambda h, i: ("ds", f"dc{i}", {"params": [("val", 0)], "callback": ("step", f"cb{i}", {"y": h})}),
     )
-    add("ds_cb_over", ANY, tag, lambda h, i: ("ds", f"dk{i}", {"params": [h], "callback": ("fn", f"cb{i}")}))
-    add("ds_effect", ANY, tag, lambda h, i: ("ds", f"de{i}", {"params": [h], "effects": [f"e{i}"]}))
-    add("ds_options_A", ANY, tag, lambda h, i: ("ds", f"dA{i}", {"params": [h], "options": {"A": 9}}))
-    add("ds_options_SY", ANY, tag, lambda h, i: ("ds", f"dS{i}", {"params": [h], "options": {"S": {"Y": 9}}}))
-    add("ds_defopts_B", ANY, tag, lambda h, i: ("ds", f"dB{i}", {"params": [h], "default_options": {"B": 9}}))
-    add("dswo_A", ANY, tag, lambda h, i: ("dswo", ("ds", f"dw{i}", {"params": [h]}), {"A": 9}))
-    add("dswdo_B", ANY, tag, lambda h, i: ("dswdo", ("ds", f"dv{i}", {"params": [h]}), {"B": 9}))
+    add("ds_cb_over", EAGER, tag, lambda h, i: ("ds", f"dk{i}", {"params": [h], "callback": ("fn", f"cb{i}")}))
+    add("ds_effect", EAGER, tag, lambda h, i: ("ds", f"de{i}", {"params": [h], "effects": [f"e{i}"]}))
+    add("ds_options_A", EAGER, tag, lambda h, i: ("ds", f"dA{i}", {"params": [h], "options": {"A": 9}}))
+    add("ds_options_SY", EAGER, tag, lambda h, i: ("ds", f"dS{i}", {"params": [h], "options": {"S": {"Y": 9}}}))
+    add("ds_defopts_B", EAGER, tag, lambda h, i: ("ds", f"dB{i}", {"params": [h], "default_options": {"B": 9}}))
+    add("dswo_A", EAGER, tag, lambda h, i: ("dswo", ("ds", f"dw{i}", {"params": [h]}), {"A": 9}))
+    add("dswdo_B", EAGER, tag, lambda h, i: ("dswdo", ("ds", f"dv{i}", {"params": [h]}), {"B": 9}))
     add("tmpl_param", ("h", "l"), H, lambda h, i: ("tmpl", "x{:p:}y", {"p": h}))
     add(
         "opt_default",
@@ -225,6 +227,7 @@ def _ctx():
     )
     add("computation", ANY, same, lambda h, i: ("computation", h, [f"ce{i}"]))
     add("logged", ANY, same, lambda h, i: ("logged", h))
+    add("consume", ("i",), J, lambda h, i: ("apply", h, ("fn", "f_list")))
     return C
 
 
@@ -258,7 +261,7 @@ def compose(ctx_names, leaf_name):
             order.append(k)
         else:
             for v in vs:
-                if not any(v is w or (v is not ABSENT and w is not ABSENT and v == w and type(v) is type(w)) for w in merged[k]):
+                if not any(type(v) is type(w) and v == w for w in merged[k]):
                     merged[k].append(v)
     return term, [(k, merged[k]) for k in order]
 
